@@ -157,6 +157,22 @@ def tmodule_domains(ctx: Ctx, pid: str):
     for key, w in want.items():
         got = table.get(key)
         ctx.check(got is not None and got[0] == w, rule, got[1] if got else fn.site, f"TModule.d.{key}", found=tstr(got[0]) if got else "no such arm", required=tstr(w))
+    # the wrapper forwards `+=` to the wrapped Amaranth domain
+    ia = _fn(ctx, TMODULE, "_AvoidingModuleBuilderDomain.__iadd__", rule)
+    wi = _fn(ctx, TMODULE, "_AvoidingModuleBuilderDomain.__init__", rule)
+    slot = [s.target for _, s in wi.facts(Store) if s.value == wi.param(1) and s.target[0] == "a" and s.target[1] == ("self",)]
+    fw = [e for _, e in ia.facts(Effect) if pmatch("Q_d.__iadd__(Q_a)", e.call) is not None] + [s for _, s in ia.facts(Store) if s.aug == "+"]
+    okf = False
+    for f_ in fw:
+        if isinstance(f_, Effect):
+            mm_ = pmatch("Q_d.__iadd__(Q_a)", f_.call)
+            okf = okf or (mm_["d"] in slot and mm_["a"] == ia.param(1) and py_guard(f_) is True)
+        else:
+            okf = okf or (f_.target in slot and f_.value == ia.param(1) and py_guard(f_) is True)
+    rs_ = ia.facts(Return, lambda r: r.callid is None)
+    ctx.check(okf and all(r.value == ("self",) for _, r in rs_) and bool(rs_), rule + ".forwarded", ia.site, "TModule.d.<domain> +=",
+              found="; ".join(tstr(f_.call) if isinstance(f_, Effect) else f"{tstr(f_.target)} += {tstr(f_.value)}" for f_ in fw) or "the statements are not handed to the wrapped domain",
+              required="`m.d.<domain> += stmts` adds the statements to the wrapped Amaranth domain and returns the wrapper")
     tm = _fn(ctx, "transactron/utils/amaranth_ext/functions.py", "top_module", rule) if "top_module" in ctx.repo.module("transactron/utils/amaranth_ext/functions.py").functions else None
     # submodule registration
     init = _fn(ctx, TMODULE, "TModule.__init__", rule)
